@@ -253,3 +253,38 @@ func StripVersions(s string) string {
 	}
 	return b.String()
 }
+
+// Subst replaces every occurrence of the atom by a constant.
+func Subst(f Formula, atom string, val bool) Formula {
+	switch x := f.(type) {
+	case Atom:
+		if string(x) == atom {
+			if val {
+				return True{}
+			}
+			return False{}
+		}
+		return x
+	case Not:
+		return Not{Subst(x.X, atom, val)}
+	case And:
+		return And{Subst(x.L, atom, val), Subst(x.R, atom, val)}
+	case Or:
+		return Or{Subst(x.L, atom, val), Subst(x.R, atom, val)}
+	}
+	return f
+}
+
+// DependsOn: the truth of f changes with the atom for some valuation of the other atoms.
+func DependsOn(f Formula, atom string) bool {
+	seen := false
+	for _, a := range Atoms(f) {
+		if a == atom {
+			seen = true
+		}
+	}
+	if !seen {
+		return false
+	}
+	return !Equivalent(True{}, Subst(f, atom, true), Subst(f, atom, false))
+}
